@@ -41,7 +41,16 @@ func runC10(c *engine.Ctx) {
 	// exclude loads that are not wire entry points: the updates list of an existing response
 	updatesF := c.P.Field("responsemanager", "inProgressResponseStatus", "updates")
 	n := 0
-	cfg := &engine.TaintCfg{P: c.P, Table: table, PeerField: peerF, Observer: logObserver}
+	cfg := &engine.TaintCfg{P: c.P, Table: table, PeerField: peerF, Observer: logObserver,
+		// a response stream (and the subscriber handed to it) acts on the table by request ID alone when its messages
+		// are sent or fail: creating one under an ID that may be in use by another peer lets that peer's response be
+		// retired by this peer's traffic
+		KeyedSink: func(ci engine.CallInfo) (string, bool) {
+			if ci.Common.IsInvoke() && ci.Common.Method.Name() == "NewStream" {
+				return "creates a response stream under a wire-supplied request ID with no dominating check that the ID is free or belongs to the sending peer: the stream's subscriber retires the table entry of that ID when this peer's message is sent or fails", true
+			}
+			return "", false
+		}}
 	for f, srcs := range roots {
 		var keep []ssaValue
 		for _, s := range srcs {
